@@ -42,6 +42,14 @@ CHECKS = {
             "init='results' clause operationalised: previous converged default-start result at most 2 switching/small-setpoint edits old; nets <= 60 buses; tolerance 1e-6 (1e-5/1e-4 for different start points). " + COMMON_NOTE,
             "deterministic simulation: seeded operation/fault histories, replica (scrubbed-copy) oracle, crash-point injection into earlier calculations",
             "DESIGN.md section 4, C09"),
+    "C14": ("Seeded search over meshed nets, N-1 case sets in seeded order (incl. own outage first), naturally failing and planned-failing cases, raise_errors/write_to_net, and exceptions injected inside the N-1 loop; extremes, causes and overload flags are recomputed from the per-case history recorded at the evaluation-function seam; N-0 equals a plain power flow; in_service flags restored on every exit; a second seeded case order gives the same extremes.",
+            "The recorded per-case results are the ground truth (the property is about aggregation). " + COMMON_NOTE,
+            "deterministic simulation: recording/failing callback at the evaluation-function seam, ExtremesModel over the recorded history, crash-point injection",
+            "DESIGN.md section 4, C14"),
+    "C15": ("Seeded search over pool schedules (worker count, chunking, chunk->worker assignment, completion order, cpu_count for n_procs=None) under a simulated process pool with pickled task isolation; every schedule's result is compared with the sequential run_contingency and with the other schedules.",
+            "The pool is a stub (in-process workers; pickling preserved, separate module globals and real scheduling not). " + COMMON_NOTE,
+            "deterministic simulation: simulated process pool with planned schedules, sequential analysis as reference model",
+            "DESIGN.md section 4, C15"),
     "C30": ("Seeded search over interleavings of several Diagnostic clients (instantiation, registration, diagnose_network with options, report) in one process; every call is checked against a per-instance model, a snapshot of the diagnosed net, and - for a sampled subset - the same call as the only call of a fresh forked process.",
             "The fresh-process oracle is sampled (about 1 in 3 calls, at least one per episode) because fork is expensive under load in this VM; known module-level state is reset at episode start. " + COMMON_NOTE,
             "deterministic simulation: seeded client interleaving over shared process state, reference model + fresh-process isolation oracle",
